@@ -1,26 +1,32 @@
 //! ad-hoc probes (not registered in any check)
 use crate::args::Args;
+use crate::mon::{hub, SchedCtl};
 use crate::report::Report;
 use crate::storeutil::{self, Cfg};
+use std::sync::Arc;
 
-pub fn run(args: &Args) -> Report {
+pub fn run(_args: &Args) -> Report {
     let report = Report::new("scratch", "ad-hoc");
     let dir = storeutil::scratch_dir("scratch");
     let path = format!("{dir}/d.feox");
-    let mut cfg = Cfg::disk(16 + 64);
-    cfg.version = args.num("version", 2) as u32;
-    let st = storeutil::open(&cfg, Some(&path)).unwrap();
-    for i in 0..8 {
-        st.insert(format!("k{i}").as_bytes(), b"0123456789012345678901234567").unwrap();
-    }
+    let cfg = Cfg::disk(16 + 64);
+    let st = Arc::new(storeutil::open(&cfg, Some(&path)).unwrap());
+    st.insert(b"other", b"0123456789012345678901234567").unwrap();
     st.flush().unwrap();
-    st.delete(b"k3").unwrap();
-    drop(st);
-    println!("after drop: {}", path);
-    std::process::Command::new("python3").args(["/tmp/dbg.py", &path]).status().unwrap();
-    let st = storeutil::open(&cfg, Some(&path)).unwrap();
-    println!("len {}", st.len());
-    drop(st);
-    std::process::Command::new("python3").args(["/tmp/dbg.py", &path]).status().unwrap();
+    st.insert(b"k", b"generation-1").unwrap();
+    let ctl = Arc::new(SchedCtl::new(1, 0, 0).target("update.before_enqueue", 1000, 600_000));
+    hub().set_sched(Some(ctl));
+    let st2 = st.clone();
+    let t = std::thread::spawn(move || {
+        st2.insert(b"k", b"generation-2").unwrap();
+    });
+    std::thread::sleep(std::time::Duration::from_millis(150));
+    println!("flush -> {:?}", st.flush());
+    std::fs::copy(&path, format!("{dir}/copy.feox")).unwrap();
+    t.join().unwrap();
+    hub().set_sched(None);
+    let c = storeutil::open(&cfg, Some(&format!("{dir}/copy.feox"))).unwrap();
+    println!("after crash right after the acknowledged flush: get(k) = {:?}", c.get(b"k").map(|v| String::from_utf8_lossy(&v).to_string()));
+    println!("live store get(k) = {:?}", st.get(b"k").map(|v| String::from_utf8_lossy(&v).to_string()));
     report
 }
